@@ -1462,6 +1462,28 @@ class Evaluator:
           env[n] = v.with_cls(c)
     return env
 
+  def canonical_args(self, fi, args, kwargs):
+    """Call arguments of a resolved repo callee in canonical form: the longest gap-free prefix of the
+    parameter list is positional (whether it was written positionally or by keyword), the rest stays
+    keyword in parameter order.  `f(x, mesh)`, `f(x, mesh=mesh)` and `f(field=x, mesh=mesh)` give one term."""
+    a = fi.args
+    if a.vararg is not None or a.posonlyargs or any(x.k == 'star' for x in args) or any(n == '**' for n, _ in kwargs):
+      return list(args), list(kwargs)
+    pos = [norm_ident(x.arg) for x in a.args]
+    if len(args) > len(pos):
+      return list(args), list(kwargs)
+    kw = dict(kwargs)
+    if len(kw) != len(kwargs) or any(n in pos[:len(args)] for n in kw):
+      return list(args), list(kwargs)
+    out = list(args)
+    i = len(args)
+    while i < len(pos) and pos[i] in kw:
+      out.append(kw.pop(pos[i]))
+      i += 1
+    order = {n: j for j, n in enumerate(pos + [norm_ident(x.arg) for x in a.kwonlyargs])}
+    rest = sorted(kw.items(), key=lambda nv: (order.get(nv[0], len(order)), nv[0]))
+    return out, rest
+
   def return_class(self, fi):
     if fi.node is not None and getattr(fi.node, 'returns', None) is not None:
       return self.prog.resolve_class_expr(fi.node.returns, fi.module)
@@ -1480,6 +1502,7 @@ class Evaluator:
         data = [x for x in args if not (fi.cls is not None and x is args[0])]
         if data and data[0].cls is not None:
           rc = data[0].cls
+      args, kwargs = self.canonical_args(fi, args, kwargs)
       return mk_call(opaque_term, args, kwargs, cls=rc, loc=loc)
     return self.invoke(fi, args, kwargs, ctx, node, cenv=cenv, opaque_term=opaque_term)
 
